@@ -22,7 +22,8 @@ EXPLANATION = (
     'decoder branch of the same tag, scalar converter kind matches the type family (integer->int, floating->float), '
     'families are covered abstractly (np.integer/np.floating, any width), and the fall-through delegates to '
     'JSONEncoder.default; to_json/from_json use exactly this encoder/hook. C17.d: save and load dispatch on the '
-    'same extensions with the same default. Not decided: file-name injectivity, pickle fidelity, idempotence as values.')
+    'same extensions with the same default. Not decided: file-name injectivity, pickle fidelity, idempotence as values.'
+    ' C17.g: a reader never feeds the items of one stored group through a writer that replaces the entry of the key.')
 
 PAIRS = [
     (RES, 'Result', 10),
@@ -438,6 +439,12 @@ def synthetic():
 
 
 MUTANTS = [
+    Mutant('results-read-back-through-the-replacing-writer', RES, 'SimulationResults._from_dict',
+           [('replace', 'simresults._results = results', 'for lst in results.values():\n        for r in lst:\n            simresults.add_result(r)')],
+           r'C17\.g:SimulationResults\._from_dict:replacing-writer:add_result'),
+    Mutant('benign-results-read-back-through-the-appending-writer', RES, 'SimulationResults._from_dict',
+           [('replace', 'simresults._results = results', 'for lst in results.values():\n        for r in lst:\n            simresults.append_result(r)')],
+           None, benign=True),
     Mutant('file-name-values-rounded', 'pyphysim/util/misc.py', 'replace_dict_values',
            [('regex', r'(\n        new_dict\[n\] = v)', r'\n        if isinstance(v, float):\n            v = round(v, 12)\1')], r'C17\.f:replace_dict_values:lossy-name'),
     Mutant('drop-num_updates-from-writer', RES, 'Result._to_dict', [('regex', r'num_updates=self\.num_updates,\s*', '')],
